@@ -67,6 +67,8 @@ structure CM where
   known : List UInt8 → Bool      -- root.GetType(token) ≠ nil
   depthLimit : Option Nat := none  -- `MaxParseDepth` when the nested constructs call `deeper()` (D03 repaired)
   listNeedsMember : Bool := false  -- `[]` (a list type without a member type) is a parse error (D107 repaired)
+  condStrict : Bool := false       -- a type condition must be a named object / interface / union type (D100, D110 repaired)
+  composite : List UInt8 → Bool := fun _ => true  -- the known names that are object, interface or union types
 
 variable (cm : CM)
 
